@@ -179,11 +179,13 @@ Lemma goat_table_ok : table_ok goat_table goat_rank goat_gain goat_nf = true.
 Proof. vm_compute. reflexivity. Qed.
 
 Theorem goat_parser_terminates : forall (n : Z) (oracle : nat -> bool) (c : Z) (k : nat),
-  0 <= c <= n -> exists o k', Exec goat_table n oracle (Call F_parse) c k o k'.
+  0 <= c <= n -> exists o k', Exec goat_table n oracle (Call F_parse) c k o k' /\
+    (forall c', o = ONorm c' -> c + 1 <= c' <= n).
 Proof.
   intros n oracle c k Hc.
-  destruct (table_terminates goat_table goat_rank goat_gain goat_nf goat_table_ok n oracle F_parse c k) as (o & k' & X & _).
+  destruct (table_terminates goat_table goat_rank goat_gain goat_nf goat_table_ok n oracle F_parse c k) as (o & k' & X & Y).
   - unfold F_parse, goat_nf. lia.
   - lia.
-  - exists o, k'. exact X.
+  - exists o, k'. split; [exact X|]. intros c' E. specialize (Y c' E).
+    change (goat_gain F_parse) with 1 in Y. exact Y.
 Qed.
